@@ -181,3 +181,57 @@ pub fn c04_t_oneway_stateful_rx_initiator() {
 deliver_harness!(c04_q_stateless_rx_initiator, true, true);
 deliver_harness!(c04_t_stateful_rx_initiator, false, true);
 deliver_harness!(c04_t_stateless_rx_responder, true, false);
+
+/// The session keys come from the REAL Split() here (the harnesses above place keys through the from-parts hook): a
+/// real responder writes the last message of NN over a 64-byte toy hash (the "truncate temp_k1 / temp_k2 to 32 bytes"
+/// branch of Split) and converts; its own first transport message, reflected back to it under the same nonce, must be
+/// refused. Toy AEAD with CONCRETE handshake inputs (the ideal AEAD of this file carries at most 8 bytes of associated
+/// data, the handshake hash is 64 bytes here): the two Split() outputs of the specification are then concretely
+/// different keys and the toy tag is key-dependent, so the reflected message is refused unless both directions were
+/// given the same key. Symbolic: payload, mode, stateless nonce.
+#[kani::proof]
+#[kani::unwind(66)]
+pub fn c04_q_reflection_after_real_split_hl64() {
+    use super::common::*;
+    use crate::glue::*;
+    use crate::prims::Toy;
+    use crate::rm::*;
+    type P64 = Toy<64, 4, 4>;
+    unsafe {
+        CONCRETE_INPUTS = true;
+    }
+    let pro: [u8; 2] = [3, 4];
+    let mut pair = rm_pair::<P64>(Pat::NN, 0, NAME.as_bytes(), &pro);
+    rm_advance::<P64>(&mut pair, 1);
+    let rmr = pair.r;
+    let mut hs = snow_from_rm_a::<64, 4, 4>(&rmr, NAME, false);
+    let e: [u8; 8] = sym8();
+    set_rng_slot(0, &e);
+    let mut m = [0u8; MSGBUF];
+    let n = hs.write_message(&[1u8, 2u8], &mut m);
+    assert!(n.is_ok() && hs.is_handshake_finished(), "C02: an honest last handshake write failed");
+    let p: [u8; 2] = kani::any();
+    let mut t = [0u8; 18];
+    let mut out = [0u8; 8];
+    let stateless: bool = kani::any();
+    kani::cover!(stateless, "C04 reflection harness reached");
+    if stateless {
+        let ts = hs.into_stateless_transport_mode();
+        assert!(ts.is_ok(), "C11: stateless conversion refused after the last message");
+        if let Ok(ts) = ts {
+            let nonce: u64 = kani::any();
+            kani::assume(nonce != u64::MAX);
+            assert!(ts.write_message(nonce, &p, &mut t) == Ok(18), "C02: a legitimate stateless transport write failed");
+            assert!(ts.read_message(nonce, &t, &mut out).is_err(), "C04: a message reflected back to its own sender was accepted (stateless)");
+            core::mem::forget(ts);
+        }
+    } else {
+        let ts = hs.into_transport_mode();
+        assert!(ts.is_ok(), "C11: conversion refused after the last message");
+        if let Ok(mut ts) = ts {
+            assert!(ts.write_message(&p, &mut t) == Ok(18), "C02: a legitimate transport write failed");
+            assert!(ts.read_message(&t, &mut out).is_err(), "C04: a message reflected back to its own sender was accepted");
+            core::mem::forget(ts);
+        }
+    }
+}
